@@ -54,7 +54,7 @@ def freq_grid(draw, nmin=1, nmax=24, kinds=("log", "uniform", "irregular"), tail
 
 
 @st.composite
-def dir_grid(draw, nmin=1, nmax=36, orders=("asc", "rolled", "desc"), spacing=("whole", "dyadic", "arbitrary")):
+def dir_grid(draw, nmin=1, nmax=36, orders=("asc", "rolled", "desc", "shuffled"), spacing=("whole", "dyadic", "arbitrary")):
     """Uniform full-circle grid; `d` is the *stored* sequence."""
     n = draw(st.integers(nmin, nmax))
     sp = draw(st.sampled_from(spacing))
@@ -93,6 +93,12 @@ def dir_grid(draw, nmin=1, nmax=36, orders=("asc", "rolled", "desc"), spacing=("
         d = asc[-roll:] + asc[:-roll]
     elif order == "desc":
         d = asc[::-1]
+    elif order == "shuffled" and n > 2:
+        # any stored order at all (e.g. two sector files concatenated without sorting): 0, 30, ..., 330, 15, 45, ..., 345
+        if draw(st.booleans()) and n % 2 == 0:
+            d = asc[0::2] + asc[1::2]
+        else:
+            d = [asc[i] for i in draw(st.permutations(list(range(n))))]
     else:
         d = asc
     return dict(n=n, spacing=sp, order=order, roll=roll, d=d)
